@@ -271,9 +271,9 @@ fn collect_field<'a>(
 
                 let field_value = match field_future {
                     FieldFuture::Value(field_value) => field_value,
-                    FieldFuture::Future(future) => future
-                        .await
-                        .map_err(|err| err.into_server_error(field.pos))?,
+                    FieldFuture::Future(future) => future.await.map_err(|err| {
+                        ctx_field.set_error_path(err.into_server_error(field.pos))
+                    })?,
                 };
 
                 let value =
@@ -283,12 +283,21 @@ fn collect_field<'a>(
             };
             futures_util::pin_mut!(resolve_fut);
 
-            let res_value = ctx_field
+            let res_value = match ctx_field
                 .query_env
                 .extensions
                 .resolve(resolve_info, &mut resolve_fut)
-                .await?
-                .unwrap_or_default();
+                .await
+            {
+                Ok(value) => value.unwrap_or_default(),
+                // A field error nulls the field itself when its type is nullable,
+                // otherwise it propagates to the parent.
+                Err(err) if field_def.ty.is_nullable() => {
+                    ctx_field.add_error(err);
+                    Value::Null
+                }
+                Err(err) => return Err(err),
+            };
             Ok((field.node.response_key().node.clone(), res_value))
         }
         .boxed(),
@@ -487,12 +496,20 @@ async fn resolve_list<'a>(
             let resolve_fut = async { resolve(schema, &ctx_item, type_ref, Some(value)).await };
             futures_util::pin_mut!(resolve_fut);
 
-            let res_value = ctx_item
+            match ctx_item
                 .query_env
                 .extensions
                 .resolve(resolve_info, &mut resolve_fut)
-                .await?;
-            Ok::<_, ServerError>(res_value.unwrap_or_default())
+                .await
+            {
+                Ok(res_value) => Ok::<_, ServerError>(res_value.unwrap_or_default()),
+                // An error in a nullable list item only nulls that item.
+                Err(err) if type_ref.is_nullable() => {
+                    ctx_item.add_error(err);
+                    Ok(Value::Null)
+                }
+                Err(err) => Err(err),
+            }
         });
     }
     let values = futures_util::future::try_join_all(futures).await?;
